@@ -574,4 +574,4 @@ package deflate
 //@   modifies hist.literalCodes
 //@   ensures[C01 freq-frame] forall x :: 256 <= x && x < 513 ==> hist.literalCodes[x] == old(hist.literalCodes[x])
 //@   loop 1 invariant forall x :: 256 <= x && x < 513 ==> hist.literalCodes[x] == old(hist.literalCodes[x])
-//@   loop 2 invariant 0 <= j && j <= len(input) && (forall x :: 256 <= x && x < 513 ==> hist.literalCodes[x] == old(hist.literalCodes[x]))
+//@   loop 2 invariant forall x :: 256 <= x && x < 513 ==> hist.literalCodes[x] == old(hist.literalCodes[x])
